@@ -301,6 +301,14 @@ func c18Mappers(o rapidproto.GeneratorOptions, mask int) rapidproto.GeneratorOpt
 					return protoreflect.Value{}, false
 				}
 				return protoreflect.ValueOfString(sentinel + rapid.StringMatching("[a-z]{0,3}").Draw(t, name)), true
+			},
+			// enum fields: always the value declared LAST
+			func(t *rapid.T, fd protoreflect.FieldDescriptor, name string) (protoreflect.Value, bool) {
+				if fd.Kind() != protoreflect.EnumKind || fd.Enum().Values().Len() == 0 {
+					return protoreflect.Value{}, false
+				}
+				vals := fd.Enum().Values()
+				return protoreflect.ValueOfEnum(vals.Get(vals.Len() - 1).Number()), true
 			}}
 	}
 	return o
@@ -509,6 +517,9 @@ func c18Walk(m protoreflect.Message, opts rapidproto.GeneratorOptions, mask, dep
 			case protoreflect.EnumKind:
 				if sfd.Enum().Values().ByNumber(v.Enum()) == nil {
 					return fmt.Errorf("%s: enum value %d is not declared by %s", where, v.Enum(), sfd.Enum().FullName())
+				}
+				if vals := sfd.Enum().Values(); mask&8 != 0 && vals.Len() > 0 && v.Enum() != vals.Get(vals.Len()-1).Number() {
+					return fmt.Errorf("%s: field mapper not honoured: enum value %d was not produced by the mapper for enum fields (it answers %d)", where, v.Enum(), vals.Get(vals.Len()-1).Number())
 				}
 			}
 			return nil
